@@ -486,6 +486,14 @@ def _do_extract(res, repo_root, head, block, canary, tpl_path):
                     if le < 0:
                         le = len(t.s)
                     t.insert(le, '\n' + '\n'.join(d.payload))
+            elif d.kind == 'atexit':
+                # right before the closing brace of the body (for fns whose body ends with a statement)
+                masked = rscan.mask(t.s)
+                m = re.search(r'\bfn\s+(\w+)', masked)
+                body_open = rscan.find_body_open(masked, m.end(), '{')
+                body_close = rscan.match_close(masked, body_open)
+                ls = t.s.rfind('\n', 0, body_close) + 1
+                t.insert(ls, '\n'.join(d.payload) + '\n')
             elif d.kind == 'atend':
                 # before the tail expression (last non-blank line) of the function body
                 masked = rscan.mask(t.s)
